@@ -84,7 +84,13 @@ fn au_case(rng: &mut Rng) -> String {
     let ch: u32 = if rng.chance(1, 6) { rng.below(4) as u32 } else { 1 };
     h.extend(magic.to_be_bytes());
     h.extend(off.to_be_bytes());
-    h.extend((rng.next() as u32).to_be_bytes());
+    // data size: not used by the decoder; unknown, random, small and odd values
+    let size_field = match rng.below(4) {
+        0 => 0xffff_ffffu32,
+        1 => rng.next() as u32,
+        _ => *rng.pick(&[0u32, 1, 2, 3, 5, 7, 9, 20, 33]),
+    };
+    h.extend(size_field.to_be_bytes());
     h.extend(enc.to_be_bytes());
     h.extend(rate.to_be_bytes());
     h.extend(ch.to_be_bytes());
@@ -189,7 +195,12 @@ fn sigmf_extreme(rng: &mut Rng, idx: usize, dir: &std::path::Path, kind: usize) 
         }
         anns.push(format!("{{{}}}", f.join(", ")));
     }
-    let mut glob = vec!["\"core:datatype\": \"ru8_le\"".to_string(), "\"core:version\": \"1.1.0\"".to_string()];
+    // the datatype string is untrusted text too: empty, shorter than its suffix, multi-byte characters at the
+    // places where a parser might cut it, wrong type, very long
+    let dts = ["ru8_le", "ru8_le", "ru8_le", "", "r", "cf", "le", "_le", "ru8", "ru8_l", "cf32_le", "ri16_be", "ru8_l\u{e9}",
+        "r\u{20ac}", "\u{20ac}\u{20ac}", "\u{e9}le", "ru8_le_and_a_lot_more_text_than_any_datatype_has", "RU8_LE", "ru8-le", "ci8"];
+    let dt = dts[rng.below(dts.len())];
+    let mut glob = vec![format!("\"core:datatype\": \"{dt}\""), "\"core:version\": \"1.1.0\"".to_string()];
     if rng.chance(1, 2) {
         glob.push(format!("\"core:sample_rate\": {}", floats[rng.below(floats.len())]));
     }
